@@ -208,7 +208,7 @@ pub fn prop(tier: Tier, _seed: u64) -> Prop {
         }
         out
     }));
-    p.rule = "part 1: the library's real band code under a loom-thread model of the four rayon entry points it uses: bodies {horizontal pass, vertical pass, two-pass resize, multiply_alpha, divide_alpha_inplace, alpha-aware resize (4 regions), Nearest (control)} x {U8, U8x4, U16x2, F32} x {portable, SIMD} x reported pool sizes {2,3,4,7,32} x workers 2..5 (loom allows 5 threads per execution) with preemption bound 2/3, destination either a harness view whose rows are loom UnsafeCells (unsynchronised row accesses are reported in every execution) or a plain TypedImage (slice-split path); every execution must give the bytes of the sequential run and run every band exactly once; row-granularity yield points on small images. part 2: every pool size 1..33, 64, 1000 x shapes (incl. 1xN, Nx1 with N = 4095..65537) x bodies x types in every band order (all permutations up to 5 bands) with per-band write sets (pairwise disjoint) under two sentinels, on both build profiles. part 3: the two band-count functions on (0..300 ∪ 2^k-1,2^k,2^k+1 for k <= 32)^2 and the resulting splits. part 4: the same bodies under the real rayon, pool sizes 1..32 and above, repeated runs".into();
+    p.rule = "part 1: the library's real band code under a loom-thread model of the four rayon entry points it uses: bodies {horizontal pass, vertical pass, two-pass resize, multiply_alpha, divide_alpha_inplace, alpha-aware resize (4 regions), Nearest (control)} x {U8, U8x4, U16x2, F32} x {portable, SIMD} x reported pool sizes {2,3,4,7,32} x workers 2..5 (loom allows 5 threads per execution) with preemption bound 2/3, destination either a harness view whose rows are loom UnsafeCells (unsynchronised row accesses are reported in every execution) or a plain TypedImage (slice-split path); every execution must give the bytes of the sequential run and run every band exactly once; row-granularity yield points on small images. part 2 (also for U8x2 and U8x3, and with the long-kernel body HorizLong = Lanczos3 4x width-only down-scale, as is part 4): every pool size 1..33, 64, 1000 x shapes (incl. 1xN, Nx1 with N = 4095..65537) x bodies x types in every band order (all permutations up to 5 bands) with per-band write sets (pairwise disjoint) under two sentinels, on both build profiles. part 3: the two band-count functions on (0..300 ∪ 2^k-1,2^k,2^k+1 for k <= 32)^2 and the resulting splits. part 4: the same bodies under the real rayon, pool sizes 1..32 and above, repeated runs".into();
     p.bounds = json!({"loom_preemption_bound": tier.pick(2, 3), "loom_threads_per_execution": 5});
     p.assumptions = vec![
         "real rayon is trusted to run every item of a for_each exactly once on some thread in some order; the loom model allows any such execution".into(),
